@@ -1123,6 +1123,25 @@ impl NameResolution {
         hir_table: &mut HirTable,
     ) -> hir::PatId {
         match pat {
+            ast::Pat::PVar { name, astptr }
+                if ctx
+                    .constructor_index
+                    .has_variant(ctx.current_package, &name.0) =>
+            {
+                // A bare variant name is a constructor pattern even when the enum is declared
+                // in another file of the package (lowering only sees the enums of its own file
+                // and leaves the name as a variable pattern, which would match anything).
+                let constructor =
+                    self.normalize_constructor_path(&ast::Path::from_ident(name.clone()), ctx);
+                self.alloc_pat_with_ptr(
+                    hir_table,
+                    *astptr,
+                    hir::Pat::PConstr {
+                        constructor: hir::ConstructorRef::Unresolved(constructor),
+                        args: Vec::new(),
+                    },
+                )
+            }
             ast::Pat::PVar { name, astptr } => {
                 let newname = self.fresh_name(&name.0, hir_table);
                 env.add(name, newname);
